@@ -190,6 +190,19 @@ func Verify(data []byte, ex Expect) (*Info, *Issue) {
 			if numValues != md.Int(5, -1) {
 				return info, issue("num-values", "%s: num_values %d, pages hold %d", where, md.Int(5, -1), numValues)
 			}
+			// size_statistics.unencoded_byte_array_data_bytes: "the number of physical bytes stored for BYTE_ARRAY
+			// data values assuming no encoding" = the sum of the value lengths, whatever encoding the pages use
+			if ss, ok := md.Field(16); ok && ss.Has(1) && leaves[ci].Phys == ref.ByteArr {
+				var sum int64
+				for _, e := range stream {
+					if !e.Null {
+						sum += int64(len(e.B))
+					}
+				}
+				if got := ss.Int(1, -1); got != sum {
+					return info, issue("unencoded-byte-array-bytes", "%s: size_statistics.unencoded_byte_array_data_bytes is %d, the values of the chunk take %d bytes", where, got, sum)
+				}
+			}
 			if got := md.Int(7, -1); got != c.End-c.Start {
 				return info, issue("total-compressed-size", "%s: total_compressed_size %d, pages occupy %d bytes", where, got, c.End-c.Start)
 			}
